@@ -44,5 +44,5 @@ for f in sorted(un):
     r.append((a,b))
     print(f"{f}: "+", ".join(f"{a}" if a==b else f"{a}-{b}" for a,b in r))
 PY
-rm -rf $PROF
+rm -rf $PROF; find /repo -name "*.profraw" -delete
 sed -n '/lines never executed/,$p' $OUT | cut -c1-400
